@@ -19,6 +19,7 @@ MIR = np.array([1., 1., -1.])
 
 
 RULE = RULE + ' The gain offset is also compared with a power level requested for the field strengths.'
+RULE = RULE + ' One more pass per structure carries 20+30j Ohm on every pulse (twice on the pulses on the plane in the pair model).'
 
 
 def bounds(tier, seed):
